@@ -21,7 +21,7 @@ THEOREMS = [_T + n for n in [
     "gen_eq_model", "next_strictly_later", "on_grid", "not_before_now", "at_most_one_period_ahead",
     "first_grid_point_after_now", "updateNext_frame", "iter_on_grid", "iter_strictly_increasing",
     "periodSec_jitter_bounds", "next_strictly_later_jitter", "not_before_now_jitter", "at_most_ahead_jitter",
-    "inv_init", "step_inv", "no_overlap", "inv_run", "stop_prevents_runs", "stop_clears", "stop_disarms",
+    "inv_init", "step_inv", "step_inv1", "no_overlap", "no_overlap_from_init", "inv_run", "restart_on_new_grid", "stop_prevents_runs", "stop_clears", "stop_disarms",
     "stop_in_iteration_prevents_run", "iter_nil_eq_fire", "actStep_eq",
     "ctor_accepts_any_period", "ctor_spec", "ctor_on_grid",
 ]]
@@ -38,8 +38,11 @@ ASSUMPTIONS = [
     "is CPython's correctly rounded true division (checked: |stored - us/1000| <= ulp/2)",
     "float comparison allowance (computed in Lean, Spec.tolFor): 2 ulp of the result + 2^-48 relative on the increment; a "
     "neighbouring floor is accepted only when the exact quotient is within 2^-48 (relative) of an integer",
-    "machine programs call start() only on an idle PeriodicCallback (not running, nothing in flight): theorem hypothesis "
-    "`WF`; double start()/restart while a coroutine invocation is pending arms a second timer chain (see docs/C39.md)",
+    "machine programs: start() in ANY state between loop iterations (idle, running with a tick armed, while a coroutine "
+    "invocation is pending, after stop or not) and from a foreign callback ordered before the tick's handle; the one "
+    "exclusion left is start() from a foreign callback in the window between the timer handle and the body of the async "
+    "_run (no_overlap holds there too - it has no hypothesis - but the timer invariant `Inv`/`inv_run` and the generators "
+    "exclude it: hypothesis `WF`)",
     "machine runs use dyadic periods and clock values so that float arithmetic is exact and traces compare exactly",
     "shared loop iterations (op `iter`): one foreign timer per iteration; timers with different deadlines fire in deadline "
     "order (asyncio); for EQUAL deadlines the order is whatever asyncio's heap yields (not always registration order when "
@@ -50,7 +53,9 @@ RULE = ("every case constructs the object with its period given as float ms, int
         "sub-millisecond, non-integral and whole milliseconds, boundary values around 1 us / 1 ms); ctor: constructor-only "
         "boundary list; arith: periods log-uniform 1us..1day + round values, epoch-scale starts, clock sequences mixing small steps, exact "
         "multiples, equal-to-schedule, backwards jumps, long gaps, jitter in [0,1]; machine: op programs over "
-        "start/stop/fire/sleep/complete/iter with sync, raising and coroutine callbacks, iter = a loop iteration the periodic "
+        "start/stop/fire/sleep/complete/iter with sync, raising and coroutine callbacks, start() in every state (idle, tick armed, "
+        "coroutine invocation pending with or without a stop before it) + a systematic restart stream (first life x stop/no stop x "
+        "delay before the new start: 0, <1, =1, >1, several periods, off the old grid x continuation), iter = a loop iteration the periodic "
         "timer shares with a foreign timer calling stop()/start()/blocking (same deadline registered before or after the tick, "
         "earlier/later overdue deadline, direct call between handle and task start; lateness 0, <1 period, >1 period) - random "
         "programs plus a systematic window stream (prefix x callback kind x realisation x lateness x calls); non-trivial = arith case with a catch-up "
@@ -61,10 +66,18 @@ CLAUSES = {
     "for any period of at least a microsecond": "ctor_accepts_any_period, ctor_spec (numbers and timedeltas; the oracle "
         "demands that the constructor accepts the period and judges every step against the requested period)",
     "lies (without jitter) on the grid start + k*period": "on_grid, iter_on_grid (via gen_eq_model for the source text), "
-        "ctor_on_grid (grid of the requested period for an object built by the constructor)",
+        "ctor_on_grid (grid of the requested period for an object built by the constructor), restart_on_new_grid (start() in "
+        "any state - stale _next_timeout, already running, invocation pending - puts the origin at the current time; the "
+        "oracle judges every deadline of a machine run against the grid of the LATEST start(): Spec.schedViolations)",
     "not before the current time up to floating-point rounding": "not_before_now(_jitter) over Q; floats: tie only (Spec.stepViolations with tolerance)",
-    "at most one period after the current time while the clock has not gone backwards": "at_most_one_period_ahead, first_grid_point_after_now, at_most_ahead_jitter",
-    "a coroutine callback is never started while its previous invocation is still running": "no_overlap (+ inv_run, step_inv)",
+    "at most one period after the current time while the clock has not gone backwards": "at_most_one_period_ahead, first_grid_point_after_now, at_most_ahead_jitter "
+        "(hypothesis as modelled: the clock reading is not behind the current schedule, `next <= now` - the only way the code "
+        "can notice a backwards clock; drift between IOLoop.time and the asyncio clock is outside it); machine runs (monotone "
+        "clock): Spec.schedViolations demands it of every armed deadline, tie only",
+    "a coroutine callback is never started while its previous invocation is still running": "no_overlap, no_overlap_from_init, step_inv1 "
+        "(EVERY program: start()/stop() in any state, also while an invocation is pending and in the handle/body window - no "
+        "admissibility hypothesis since fix 1d49c08); inv_run, step_inv: additionally at most one armed timer, none while an "
+        "invocation is in flight (hypothesis WF: no start() in the handle/body window)",
     "stop prevents further runs": "stop_prevents_runs, stop_clears, stop_disarms, stop_in_iteration_prevents_run (a stop() "
         "made by a foreign callback in the loop iteration of the periodic timer, before the handle or between the handle "
         "and the body of the async _run)",
@@ -226,21 +239,27 @@ def _gen_iter(rng, p, pending, inflight):
         off = rng.choice([0.015625, late, late / 2]) if late > 0 else 0.0
         off = min(off, late)
     acts = [list(a) for a in rng.choice(ACTS_POOL)]
-    if off < 0 and reg != "direct" and pending and inflight == 0 and rng.random() < 0.25:
-        acts = [["stop"], ["start"]] if rng.random() < 0.7 else [["stop"], ["block", 0.125], ["start"]]
+    if ((off < 0 and reg != "direct") or not pending) and rng.random() < 0.25:
+        # start() from a foreign callback: ahead of the tick's handle (whatever the state), or with no tick pending
+        # (then the foreign callback runs on its own, possibly while a coroutine invocation is in flight)
+        acts = rng.choice([[["stop"], ["start"]], [["stop"], ["block", 0.125], ["start"]], [["start"]],
+                           [["start"], ["block", 0.0625], ["start"]], [["start"], ["stop"]]])
+        acts = [list(a) for a in acts]
     return ["iter", late, off, reg, acts]
 
 
 def _track_iter(op, st, kq):
     """generator-side bookkeeping (running, inflight, pending) for an iter op"""
     running, inflight, pending = st
-    if not pending:                                         # no live tick: the foreign callback runs on its own
-        return (False, inflight, False) if any(a[0] == "stop" for a in op[4]) else st
     last = [a[0] for a in op[4] if a[0] in ("stop", "start")]
+    if not pending:                                         # no live tick: the foreign callback runs on its own
+        if not last:
+            return st
+        return (False, inflight, False) if last[-1] == "stop" else (True, inflight, inflight == 0)
     if last and last[-1] == "stop":
         return (False, inflight, False)
     if last and last[-1] == "start":
-        return (True, inflight, True)                      # only generated ahead of the tick: old handle cancelled
+        return (True, inflight, inflight == 0)             # only generated ahead of the tick: old handle cancelled
     kd = kq.pop(0) if kq else "sync"
     if kd == "coro":
         return (running, inflight + 1, False)
@@ -286,8 +305,49 @@ def _window_cases():
                        "stream": "window"}
 
 
+def _restart_cases():
+    """systematic stream around 'started, stopped and started AGAIN': first life (0-2 ticks, sync or a coroutine that is
+    still pending / completes before or after the restart) x stop or no stop (double start) x delay before the new
+    start (0, < 1 period, exactly 1, > 1, several periods, off the 1/16 raster of the old grid) x what follows"""
+    for p_ms, td in ((250.0, None), (62.5, None), (None, 78125)):
+        p = (p_ms if td is None else td / 1000) / 1000.0
+        lives = [
+            ([["start"]], []),
+            ([["start"], ["sleep", p / 4]], []),
+            ([["start"], ["fire"]], ["sync"]),
+            ([["start"], ["fire"], ["fire"], ["sleep", p / 2]], ["sync", "raise"]),
+            ([["start"], ["fire"], ["sleep", p / 4], ["complete", 0, True]], ["coro"]),
+            ([["start"], ["fire"]], ["coro"]),                                   # invocation 0 still in flight
+            ([["start"], ["fire"], ["sleep", 3 * p]], ["coro"]),                 # … for several periods
+        ]
+        delays = [0.0, p / 4, p / 2, p, p + p / 4, 3 * p + p / 2, 0.0625 + 0.015625]
+        for pre, pk in lives:
+            pend = pk == ["coro"] and not any(o[0] == "complete" for o in pre)
+            for stop in (True, False):
+                for d in delays:
+                    mid = ([["stop"]] if stop else []) + ([["sleep", d]] if d else []) + [["start"]]
+                    if pend:
+                        tails = [[["fire"], ["complete", 0, True], ["fire"], ["fire"]],
+                                 [["complete", 0, True], ["fire"], ["fire"]],
+                                 [["sleep", p / 4], ["complete", 0, False], ["fire"], ["complete", 0, True], ["fire"]],
+                                 [["sleep", 2 * p], ["fire"], ["stop"], ["complete", 0, True], ["fire"]],
+                                 [["start"], ["fire"], ["sleep", p / 2], ["complete", 0, True], ["fire"], ["fire"]]]
+                    else:
+                        tails = [[["fire"], ["fire"]],
+                                 [["sleep", p / 2], ["stop"], ["sleep", p / 4], ["start"], ["fire"], ["fire"]],
+                                 [["start"], ["fire"], ["complete", 0, True], ["fire"]],
+                                 [["sleep", 2 * p + p / 4], ["fire"], ["fire"]]]
+                    for tail in tails:
+                        case = {"kind": "machine", "ct": _h(p_ms if td is None else td / 1000),
+                                "kinds": pk + ["coro", "sync", "coro"],
+                                "ops": [list(x) for x in pre] + mid + [list(x) for x in tail], "stream": "restart"}
+                        if td is not None:
+                            case["td_us"] = td
+                        yield case
+
+
 def _gen_machine(rng, maxops=14):
-    """admissible programs: `start` only when idle; everything else anywhere"""
+    """every program: `start` in any state (idle, already running, while a coroutine invocation is pending)"""
     td_us = rng.choice(DYADIC_US) if rng.random() < 0.4 else None
     ct = td_us / 1000 if td_us is not None else float(rng.choice(DYADIC_MS))
     kinds = [rng.choice(KINDS + ["coro"]) for _ in range(rng.randint(0, 8))]
@@ -301,6 +361,10 @@ def _gen_machine(rng, maxops=14):
             running, inflight, pending = _track_iter(op, (running, inflight, pending), kq)
         elif not running and inflight == 0 and k < 0.5:
             ops.append(["start"]); running, pending = True, True
+        elif rng.random() < (0.16 if (inflight or not running) else 0.06):
+            # start() in any other state: restart of a running timer (pending tick replaced), start while a coroutine
+            # invocation is still pending (after a stop or not)
+            ops.append(["start"]); running, pending = True, inflight == 0
         elif k < 0.12:
             ops.append(["stop"]); running, pending = False, False
         elif k < 0.30:
@@ -356,6 +420,7 @@ def gen_cases(rng, tier):
         yield _gen_exact(rng)
     for _ in range(n_ma):
         yield _gen_machine(rng)
+    yield from _restart_cases()
     win = list(_window_cases())
     if tier == "thorough":
         yield from win
@@ -437,7 +502,8 @@ def _run_machine(case):
     from core import vloop
     from tornado.concurrent import Future
     kinds = list(case["kinds"])
-    events, inflight, updates = [], [], []
+    events, inflight, updates, scheds = [], [], [], []
+    epoch = [None, None]                   # clock at the latest start(); last deadline armed since then
     counter = [0]
     cap = _Capture(events)
     logger = logging.getLogger("tornado.application")
@@ -469,7 +535,13 @@ def _run_machine(case):
 
             pc, rec = _construct(case, cb)
             if pc is None or pc.callback_time <= 0:
-                return {"ctor": rec, "ops": [], "updates": []}
+                return {"ctor": rec, "ops": [], "updates": [], "scheds": []}
+            orig_start = pc.start
+
+            def start():
+                epoch[0], epoch[1] = lp.time(), None
+                orig_start()
+            pc.start = start
             orig_update = pc._update_next
 
             def upd(current_time):
@@ -485,6 +557,9 @@ def _run_machine(case):
                 if callback != pc._run:
                     return orig_add(deadline, callback, *a, **k)
                 events.append(["sched", _h(deadline)])
+                if epoch[0] is not None:
+                    scheds.append([_h(epoch[0]), _h(lp.time()), _h(deadline), epoch[1]])
+                    epoch[1] = _h(deadline)
                 aid = len(ticks)
                 if slots:
                     # a foreign timer with the same deadline, registered BEFORE the periodic one (a no-op unless an
@@ -582,7 +657,7 @@ def _run_machine(case):
                                 "inflight": [i for i, _ in inflight]})
                     if order:
                         out[-1]["order"] = order
-                return {"ctor": rec, "ops": out, "updates": updates}
+                return {"ctor": rec, "ops": out, "updates": updates, "scheds": scheds}
             finally:
                 pc.stop()      # a broken scheduler must not keep re-arming itself during loop teardown
     finally:
@@ -766,6 +841,8 @@ def spec_requests(case, impl):
     out = [ctor, line(ID, "trace", _wire_ops(case, impl), [[_wire_ev(e) for e in o["evs"]] for o in impl["ops"]])]
     for before, now, after in impl["updates"]:
         out.append(line(ID, "spec", _ctq(case), [0, 1], _q(before), _q(now), _q(after), [0, 1]))
+    for st, now, d, prev in impl.get("scheds", []):
+        out.append(line(ID, "sched", _ctq(case), _q(st), _q(now), _q(d), _q(prev) if prev is not None else None))
     return out
 
 
@@ -808,11 +885,22 @@ def spec_violation(case, impl, replies):
         return "trace not evaluable: %s" % (vals,)
     if vals[0]:
         return "machine: clause %s violated" % "+".join(map(str, vals[0]))
-    for (before, now, after), r in zip(impl["updates"], replies[1:]):
+    nu = len(impl["updates"])
+    for (before, now, after), r in zip(impl["updates"], replies[1:1 + nu]):
         st_, v = parse_reply(r)
         if st_ == "ok" and v[0]:
             return "machine: scheduling clause %s violated: period=%s (stored callback_time=%s ms) next=%r now=%r -> next'=%r" % (
                 "+".join(map(str, v[0])), _arg_text(case), impl["ctor"].get("repr"), _f(before), _f(now), _f(after))
+    # every deadline armed by the live object, judged against the grid of the LATEST start()
+    for (st, now, d, prev), r in zip(impl.get("scheds", []), replies[1 + nu:]):
+        st_, v = parse_reply(r)
+        if st_ != "ok":
+            return "machine: sched spec not evaluable: %s" % (v,)
+        if v[0]:
+            return ("machine: restart clause %s violated: period=%s, latest start() at %r: deadline %r armed at now=%r "
+                    "(previous deadline since that start: %s)" % (
+                        "+".join(map(str, v[0])), _arg_text(case), _f(st), _f(d), _f(now),
+                        repr(_f(prev)) if prev is not None else "none"))
     return None
 
 
@@ -862,8 +950,18 @@ def stats(case, impl):
             else:
                 out.append("step:skips>=100")
     else:
+        prev, started = None, False
         for op, o in zip(case["ops"], impl["ops"]):
             out.append("op:" + op[0])
+            calls = [op[0]] if op[0] == "start" else [a[0] for a in op[4]] if op[0] == "iter" else []
+            if "start" in calls:
+                where = "" if op[0] == "start" else "foreign:"
+                state = ("never-started" if not started else
+                         "in-flight" + ("+stopped" if not prev["running"] else "") if prev["inflight"] else
+                         "running-tick-armed" if prev["timers"] else "stopped-idle")
+                out.append("start:%s%s" % (where, state))
+                started = True
+            prev = o
             for e in o["evs"]:
                 out.append("ev:" + e[0])
             if op[0] == "stop" and o["inflight"]:
@@ -886,7 +984,8 @@ def stats(case, impl):
 def signature(case, impl, why):
     import re
     m = re.search(r"clause ([a-z_+]+)", why)
-    return "%s/%s" % (case["kind"], m.group(1) if m else re.sub(r"[^A-Za-z]+", "-", why)[:40])
+    tag = "restart:" if "restart clause" in why else ""
+    return "%s/%s%s" % (case["kind"], tag, m.group(1) if m else re.sub(r"[^A-Za-z]+", "-", why)[:40])
 
 
 def shrink(case):
